@@ -5,6 +5,7 @@ import (
 	"math"
 
 	"verif/harness/internal/gen"
+	"verif/harness/internal/mon"
 	"verif/harness/internal/reg"
 	"verif/harness/internal/run"
 )
@@ -62,7 +63,15 @@ func finite(x float64) bool { return !math.IsNaN(x) && !math.IsInf(x, 0) }
 func c15Check(cc *run.Case, ind *reg.Indicator, iv inv, cfg reg.Cfg, class string, inputs [][]float64) {
 	inst := ind.New(cfg)
 	w := inst.Idle
-	out := runInd(inst, inputs)
+	var out [][]float64
+	if cc.R.Intn(3) == 0 {
+		// the series handed over as a finished one: buffered channels that
+		// already hold every value, closed, when Compute is called
+		out = mon.Run(inputs, mon.Sched{Pace: "eager", Prefill: true}, inst.Compute).Outs
+		cc.Count("runs_on_prefilled_buffered_inputs", 1)
+	} else {
+		out = runInd(inst, inputs)
+	}
 	// Zero-denominator positions: the reference marks them (it recomputes the
 	// defining denominators from the inputs); non-finite values at or after
 	// the first of them are exempt and counted.
